@@ -24,6 +24,8 @@ type Net struct {
 	cut    map[[2]int]bool // pairs currently partitioned
 	dead   map[int]bool    // killed peers: never linked again until AddPeer creates the successor
 	defLat time.Duration
+	// LenientClose: hosts handed out behave like yamux/mplex on stream close (see lenient.go)
+	LenientClose bool
 }
 
 func NewNet(run *Run, latency time.Duration) *Net {
@@ -57,6 +59,9 @@ func (n *Net) AddPeer(i int) host.Host {
 	h, err := n.MN.AddPeer(priv, addr)
 	if err != nil {
 		panic(err)
+	}
+	if n.LenientClose {
+		h = &lenientHost{Host: h}
 	}
 	n.ids[i] = pid
 	n.hosts[i] = h
